@@ -1925,4 +1925,71 @@ example :
           Holds ((confSetScalar 3 i v).run s') fun _ s'' => view s'' pdu = view s' pdu ∧ view s'' 3 = view (s'.set 3 ⟨.pduConfig, [some 0, some 1, some 2], [0, 1, 1, 0, 0].set i v⟩) 3 := by
   decide
 
+/-! ## the audit's counter-model, chained calls by proof, non-vacuity of the general (d) theorems -/
+
+/-- audit 3, finding 1: a "constructor" that makes the copy but builds the PDU on the CALLER's configuration -/
+def badPdu (k : PduKind) (conf : Addr) (scal : List Nat) : H Addr := do
+  let conf' ← copyConfWithDir conf (k.dir false)
+  let _ ← newPduHeader conf' 0 0 (scal.length + 1)
+  let h ← newPduHeader conf 0 0 (scal.length + 1)
+  let b ← new ⟨.directive, [some h], [k.code]⟩
+  new ⟨k.tag, [some b], scal⟩
+
+/-- it satisfied the OLD conclusion (a copy exists, a header refers to it, the caller's cell is unchanged) but is REJECTED by
+    the strengthened `C11_heap_conf_bytefields_shared`: from the returned PDU the path `pdu_header.pdu_conf` ends at the
+    caller's configuration (3), not at the new cell (`exConfStore.length` = 6), and the caller's cell is reachable -/
+example : Holds ((badPdu .keepAlive 3 [7]).run exConfStore) fun pdu s' =>
+    s'[exConfStore.length]? = some ⟨.pduConfig, [some 0, some 1, some 2], [0, 1, 1, 1, 0]⟩ ∧ s'[3]? = exConfStore[3]? ∧
+    followAttrs s' pdu ["pdu_header", "pdu_conf"] = some 3 ∧ followAttrs s' pdu ["pdu_header", "pdu_conf"] ≠ some exConfStore.length ∧
+    3 ∈ reach s' pdu ∧
+    Holds ((confSetScalar 3 2 0).run s') fun _ s'' => view s'' pdu ≠ view s' pdu := by decide
+
+/-- the hypotheses of the general (d) theorems hold for `exConfStore` (configuration at 3) … -/
+example : Closed exConfStore ∧ ConfFieldsAreLeaves exConfStore 3 ∧ ObjsAvoid exConfStore [] 3 ∧ ObjsAvoid exConfStore [some 5] 3 := by
+  refine ⟨by decide, by decide, fun o h => by simp at h, ?_⟩
+  intro o ho m hm
+  simp at ho
+  subst ho
+  -- everything reachable from the parameter object 5 is 5 or its (empty) list 4
+  have : ∀ m x, x ∈ reachN m exConfStore 5 → x = 5 ∨ x = 4 := by
+    intro m x hx
+    cases m with
+    | zero => simp [reachN] at hx; exact Or.inl hx
+    | succ m =>
+      simp only [reachN, List.mem_cons] at hx
+      rcases hx with h | h
+      · exact Or.inl h
+      · have h4 : Leaf exConfStore 4 := by decide
+        simp [exConfStore, Cell.kids] at h
+        exact Or.inr (reach_leaf h4 m x h)
+  rcases this m 3 hm with h | h <;> simp at h
+
+/-- … and the conclusion of `C11_heap_conf_bytefields_shared` for the real Finished constructor on it, evaluated -/
+example : Holds ((newFinishedPdu 3 5).run exConfStore) fun pdu s' =>
+    followAttrs s' pdu ["pdu_header", "pdu_conf"] = some 6 ∧ 3 ∉ reach s' pdu ∧
+    followAttrs s' pdu ["pdu_header", "pdu_conf", "source_entity_id"] = some 0 ∧ followAttrs s' pdu ["finished_params"] = some 5 := by
+  decide
+
+/-- CHAINED calls, by proof (no evaluation): on ANY closed store, build a telecommand, take its request ID, assign the
+    APID, take the space-packet view — every intermediate store is closed, all handles stay valid, the request ID still
+    reads what it read, and the packet view is separated from request ID and telecommand -/
+example (s0 : Store) (hc0 : Closed s0) (tc rid sp : Addr) (s1 s2 s3 : Store)
+    (h1 : (newPusTc 17 1 66 5 0 15 3).run s0 = some (tc, s1))
+    (h2 : (reqIdFromPusTc tc).run s1 = some (rid, s2))
+    (hl : ∀ hdr, headerOf s1 tc = some hdr → KidsAreLeaves s1 hdr)
+    (hl' : ∀ hdr, headerOf (runOps (tcSet tc) [.apid 7] s2) tc = some hdr → KidsAreLeaves (runOps (tcSet tc) [.apid 7] s2) hdr)
+    (h3 : (tcToSpacePacket tc).run (runOps (tcSet tc) [.apid 7] s2) = some (sp, s3)) :
+    Closed s3 ∧ rid < s3.length ∧ view (runOps (tcSet tc) [.apid 7] s2) rid = view s2 rid ∧
+    Disjoint (reach s3 sp) (reach s3 rid) ∧ Disjoint (reach s3 sp) (reach s3 tc) := by
+  obtain ⟨hTc, _, _, _, _, _, _, _, _, hReqTc, hSpTc, _, _⟩ := C11_heap_ops_keep_closed
+  obtain ⟨c1, _, r1⟩ := hTc 17 1 66 5 0 15 3 s0 hc0 tc s1 h1
+  obtain ⟨c2, l2, r2⟩ := hReqTc tc s1 c1 rid s2 h2
+  obtain ⟨c2', len2⟩ := (C02_heap_setters_keep_closed s2 c2 tc).1 [.apid 7]
+  obtain ⟨c3, l3, _⟩ := hSpTc tc _ c2' sp s3 h3
+  have hiso := C15_heap_reqid_isolated 6 s1 c1 tc r1 hl rid s2 h2 [.apid 7]
+  have hsp := C02_heap_space_packet_isolated 6 _ c2' tc (by rw [len2]; exact Nat.lt_of_lt_of_le r1 l2) hl' sp s3 h3 []
+  refine ⟨c3, Nat.lt_of_lt_of_le r2 (by rw [← len2]; exact l3), hiso.2, ?_, ?_⟩
+  · exact hsp.1 depth rid (by rw [len2]; exact r2)
+  · exact hsp.1 depth tc (by rw [len2]; exact Nat.lt_of_lt_of_le r1 l2)
+
 end SpVerif.Props.C11Heap
